@@ -10,6 +10,8 @@ import (
 	"time"
 
 	"github.com/google/jsonschema-go/jsonschema"
+
+	"verif/engine/refsem"
 )
 
 // F-types: Go types for C04 / C09 / C16. Types are programs: they are declared here
@@ -222,6 +224,47 @@ type tEmbedUnexportedScalar struct {
 	*tlabel
 }
 
+// tags that spell the Go field name, and same-depth tagged conflicts across embedded structs
+type tNameTagSameAsField struct {
+	A int    `json:"A"`
+	B string `json:"A"`
+	C int
+}
+
+type tEmbKeyNum struct {
+	Num int `json:"key"`
+}
+
+type tEmbKeyStr struct {
+	Str string `json:"key"`
+}
+
+type tNameTwoEmbTagged struct {
+	tEmbKeyNum
+	tEmbKeyStr
+	Name string
+}
+
+type tEmbID1 struct {
+	ID int `json:"ID"`
+}
+
+type tEmbID2 struct {
+	Ident string `json:"ID"`
+}
+
+type tNameTwoEmbTagSameAsField struct {
+	tEmbID1
+	tEmbID2
+	Z bool
+}
+
+// a pointer-embedded unexported struct with a JSON name
+type tEmbedPtrTaggedUnexported struct {
+	*tEmbBase `json:"in"`
+	W         int
+}
+
 type tStd struct {
 	T  time.Time
 	L  slog.Level
@@ -252,10 +295,12 @@ type tDup struct {
 }
 
 type tWeirdTags struct {
-	Q int `json:"a\\b"`
-	R int `json:"with space"`
-	S int `json:"é"`
-	T int `json:"a,b"`
+	Area int `json:"m\u00b2"` // a non-decimal Unicode number in the tag name: encoding/json ignores the name
+	Half int `json:"x\u00bd"`
+	Q    int `json:"a\\b"`
+	R    int `json:"with space"`
+	S    int `json:"é"`
+	T    int `json:"a,b"`
 }
 
 type tBad struct {
@@ -313,6 +358,7 @@ func TypeFamily() []TypeCase {
 		tc[tEmbedValue]("tEmbedValue"), tc[tEmbedPtr]("tEmbedPtr"), tc[tEmbedShadow]("tEmbedShadow"), tc[tEmbedAmbiguous]("tEmbedAmbiguous"), tc[tEmbedTagged]("tEmbedTagged"), tc[tEmbedScalar]("tEmbedScalar"), tc[tEmbedTaggedExported]("tEmbedTaggedExported"),
 		tc[tEmbedTaggedThenPlain]("tEmbedTaggedThenPlain"), tc[tEmbedScalarThenPlain]("tEmbedScalarThenPlain"), tc[tEmbedDeepTagged]("tEmbedDeepTagged"), tc[tEmbedDeepPlain]("tEmbedDeepPlain"), tc[tEmbedPlainThenTagged]("tEmbedPlainThenTagged"),
 		tc[tNameShallowFirst]("tNameShallowFirst"), tc[tNameShallowLast]("tNameShallowLast"), tc[tNameTaggedWins]("tNameTaggedWins"), tc[tNameDeepConflict]("tNameDeepConflict"), tc[tNameShadowOmit]("tNameShadowOmit"), tc[tEmbedUnexportedScalar]("tEmbedUnexportedScalar"),
+		tc[tNameTagSameAsField]("tNameTagSameAsField"), tc[tNameTwoEmbTagged]("tNameTwoEmbTagged"), tc[tNameTwoEmbTagSameAsField]("tNameTwoEmbTagSameAsField"), tc[tEmbedPtrTaggedUnexported]("tEmbedPtrTaggedUnexported"),
 		tc[tNamed]("tNamed"), tc[tNamedInt]("tNamedInt"), tc[tNamedSlice]("tNamedSlice"), tc[tDup]("tDup"), tc[tWeirdTags]("tWeirdTags"),
 	}
 	std := tc[tStd]("tStd")
@@ -413,6 +459,77 @@ func ForScaffold() (n int, bad []string) {
 					bad = append(bad, fmt.Sprintf("%s: Resolve rejects the inferred schema: %v", c.Name, err))
 				}
 			}
+			// the properties are exactly the fields encoding/json emits, required exactly when not
+			// optional (observed on the real encoding/json by the type model), without duplicates
+			if opts == nil && s1 != nil && c.T.Kind() == reflect.Struct && !c.Std {
+				tm := refsem.BuildTModel(c.T)
+				if tm.Kind == refsem.TKStruct && tm.HasUnknown() == "" {
+					want, wantReq := map[string]bool{}, map[string]bool{}
+					for _, f := range tm.Fields {
+						want[f.Name] = true
+						if !f.Optional {
+							wantReq[f.Name] = true
+						}
+					}
+					for name := range s1.Properties {
+						if !want[name] {
+							bad = append(bad, fmt.Sprintf("%s: property %q is not a field encoding/json emits", c.Name, name))
+						}
+					}
+					for name := range want {
+						if s1.Properties[name] == nil {
+							bad = append(bad, fmt.Sprintf("%s: field %q that encoding/json emits has no property", c.Name, name))
+						}
+					}
+					seenReq := map[string]bool{}
+					for _, name := range s1.Required {
+						if seenReq[name] {
+							bad = append(bad, fmt.Sprintf("%s: %q listed twice in required", c.Name, name))
+						}
+						seenReq[name] = true
+						if !wantReq[name] {
+							bad = append(bad, fmt.Sprintf("%s: %q is required but encoding/json may omit it (or never emits it)", c.Name, name))
+						}
+					}
+					// (the converse - always emitted, hence required - is not demanded: the property makes
+					// "required" a function of the omitempty/omitzero options, and encoding/json never omits
+					// e.g. a struct-valued omitempty field)
+					_ = wantReq
+					seenOrd := map[string]bool{}
+					for _, name := range s1.PropertyOrder {
+						if seenOrd[name] || s1.Properties[name] == nil {
+							bad = append(bad, fmt.Sprintf("%s: PropertyOrder entry %q is duplicated or names no property", c.Name, name))
+						}
+						seenOrd[name] = true
+					}
+				}
+			}
+		}
+	}
+	// For and ForType agree, also when TypeSchemas overrides a type that has a built-in translation
+	{
+		opts := &jsonschema.ForOptions{TypeSchemas: map[reflect.Type]*jsonschema.Schema{
+			reflect.TypeFor[time.Time](): {Type: "string", Format: "date-time"},
+			reflect.TypeFor[big.Int]():   {Type: "string", Pattern: "^-?[0-9]+$"},
+			reflect.TypeFor[tInner]():    override,
+		}}
+		n++
+		a, errA := jsonschema.For[tStd](opts)
+		b, errB := jsonschema.ForType(reflect.TypeFor[tStd](), opts)
+		ja, _ := json.Marshal(a)
+		jb, _ := json.Marshal(b)
+		if errA != nil || errB != nil || string(ja) != string(jb) {
+			bad = append(bad, fmt.Sprintf("For[tStd] and ForType(tStd) disagree under TypeSchemas: %s (err %v) vs %s (err %v)", ja, errA, jb, errB))
+		}
+		if a != nil && (a.Properties["T"] == nil || a.Properties["T"].Format != "date-time") {
+			bad = append(bad, fmt.Sprintf("For[tStd]: the TypeSchemas entry for time.Time is not used: %s", ja))
+		}
+		c1, _ := jsonschema.For[tContainersA](opts)
+		c2, _ := jsonschema.ForType(reflect.TypeFor[tContainersA](), opts)
+		j1, _ := json.Marshal(c1)
+		j2, _ := json.Marshal(c2)
+		if string(j1) != string(j2) {
+			bad = append(bad, fmt.Sprintf("For and ForType disagree on tContainersA: %s vs %s", j1, j2))
 		}
 	}
 	// recursive and unsupported
